@@ -56,6 +56,16 @@ class Closure:
         return self.tr.body(self.node.body, env, self.self_ctx)
 
 
+class PyCallable:
+    """a function value produced by a library summary (operator.itemgetter(...))"""
+
+    def __init__(self, fn):
+        self.fn = fn
+
+    def __call__(self, *args):
+        return self.fn(*args)
+
+
 class ArraySym:
     """a symbolic 1-d array: element j is the term name(j)"""
 
@@ -268,6 +278,8 @@ class Translator:
         if isinstance(t, ast.Name):
             env[t.id] = v
         elif isinstance(t, (ast.Tuple, ast.List)):
+            if isinstance(v, Quad) and getattr(v, "index", None) is None and len(t.elts) == 2:
+                v = (Quad(v.integrand, v.var, v.lo, v.hi, index=0), Quad(v.integrand, v.var, v.lo, v.hi, index=1))     # (value, error estimate)
             if not isinstance(v, (tuple, list)) or len(v) != len(t.elts):
                 self.err(t, "tuple unpack of a non-tuple")
             for e, x in zip(t.elts, v):
@@ -312,6 +324,12 @@ class Translator:
             d = self.resolve_dotted(e, env)
             if d in CONSTANTS:
                 return self.const(d)
+            if d is not None and "." in d:      # `from functools import reduce`, `from operator import add`, `from numpy import log`
+                if d.endswith(".inf"):
+                    return sp.oo
+                if d.endswith(".nan"):
+                    return sp.nan
+                return ("ext", d)
             self.err(e, f"unresolved name {e.id}")
         if isinstance(e, ast.Attribute):
             d = self.resolve_dotted(e, env)
@@ -487,7 +505,7 @@ class Translator:
         kwargs = {k.arg: self.expr(k.value, env, ctx) for k in e.keywords if k.arg}
         fv = self.expr(f, env, ctx) if not (isinstance(f, ast.Attribute) and isinstance(f.value, ast.Call) and
                                              isinstance(f.value.func, ast.Name) and f.value.func.id == "super") else ("super", f.attr)
-        if isinstance(fv, Closure):
+        if isinstance(fv, (Closure, PyCallable)):
             return fv(*args)
         if isinstance(fv, FuncInfo):
             self.depth += 1
@@ -564,8 +582,26 @@ class Translator:
             for x in seq:
                 acc = fn(acc, x) if isinstance(fn, Closure) else self.apply_operator(fn, acc, x, e)
             return acc
+        if dotted == "operator.itemgetter" and args:
+            keys = list(args)
+
+            def getter(obj, keys=keys, e=e):
+                def one(k):
+                    if isinstance(obj, dict):
+                        if k not in obj:
+                            self.err(e, f"key {k!r} not in the symbolic dictionary")
+                        return obj[k]
+                    if isinstance(obj, (tuple, list)):
+                        return obj[int(k)]
+                    if isinstance(obj, ArraySym):
+                        return obj[k]
+                    self.err(e, f"itemgetter on {type(obj).__name__}")
+                return one(keys[0]) if len(keys) == 1 else tuple(one(k) for k in keys)
+            return PyCallable(getter)
         if mod == "operator":
-            return self.apply_operator(("ext", dotted), *args, e)
+            if len(args) != 2:
+                self.err(e, f"{dotted} with {len(args)} argument(s) outside the algebraic fragment")
+            return self.apply_operator(("ext", dotted), args[0], args[1], e)
         if dotted in ("math.fsum", "numpy.sum") and args and isinstance(args[0], (tuple, list)) and not (args[0] and args[0][0] == "mask"):
             tot = sp.Integer(0)
             for x in args[0]:
